@@ -166,6 +166,19 @@ typedef struct sRegDef {
 } TRegDef, *PRegDef;
 
 static PSymbolEntry FirstSymbol, FirstLocSymbol;
+
+/* Bookkeeping for labels that get moved behind automatic padding (LabelModify()):
+   such a label is first entered with the address in front of the padding, which
+   differs from the value it ended up with in the previous pass and therefore
+   looks like a phase error.  Remember that request so ChangeSymbol() can withdraw
+   it when the label is moved back to exactly its previous value. */
+
+static struct {
+    PSymbolEntry  pEntry;        /* entry whose redefinition requested the repass */
+    LargeInt      OldValue;      /* its value from the previous pass */
+    unsigned long RequestSerial; /* value of RepassRequests right after the request */
+} LastPhaseErr;
+static unsigned long RepassRequests; /* counts all requests made in this module */
 static PDefSymbol   FirstDefSymbol;
 /*static*/ PCToken  FirstSection;
 static Boolean      DoRefs, /* Querverweise protokollieren */
@@ -2013,7 +2026,8 @@ tRegEvalResult EvalStrRegExpressionAsOperand(
             if (PassNo <= MaxSymPass) {
                 pResult->Reg     = 0;
                 pResult->Dissect = NULL;
-                Repass           = True;
+                RepassRequests++;
+                Repass = True;
                 return eIsReg;
             } else {
                 WrStrErrorPos(ErrNum_InvReg, pArg);
@@ -2137,8 +2151,14 @@ static Boolean SymbolAdder(PTree* PDest, PTree Neu, void* pData) {
                     if (ThrowErrors) {
                         ErrorCount -= JmpErrors;
                     }
-                    JmpErrors = 0;
+                    JmpErrors           = 0;
+                    LastPhaseErr.pEntry = NULL;
+                } else if (!Repass && (NewEntry->SymWert.Typ == TempInt)) {
+                    LastPhaseErr.pEntry        = NewEntry;
+                    LastPhaseErr.OldValue      = (*Node)->SymWert.Contents.Int;
+                    LastPhaseErr.RequestSerial = RepassRequests + 1;
                 }
+                RepassRequests++;
                 Repass = True;
                 if ((MsgIfRepass) && (PassNo >= PassNoForMessage)) {
                     strmaxcpy(serr, Neu->Name, STRINGSIZE);
@@ -2287,6 +2307,16 @@ void PrintSymTree(char* Name) {
 
 void ChangeSymbol(PSymbolEntry pEntry, LargeInt Value) {
     as_tempres_set_int(&pEntry->SymWert, Value);
+
+    /* label moved behind padding back to where it was in the previous pass,
+       and nothing else asked for another pass since: the phase error was
+       only apparent */
+
+    if ((pEntry == LastPhaseErr.pEntry) && (Value == LastPhaseErr.OldValue)
+        && (RepassRequests == LastPhaseErr.RequestSerial)) {
+        Repass = False;
+    }
+    LastPhaseErr.pEntry = NULL;
 }
 
 /*!------------------------------------------------------------------------
@@ -2814,6 +2844,7 @@ void LookupSymbol(
     else if (PassNo <= MaxSymPass) /* !pEntry */
     {
         as_tempres_set_int(pValue, EProgCounter());
+        RepassRequests++;
         Repass = True;
         if ((MsgIfRepass) && (PassNo >= PassNoForMessage)) {
             WrStrErrorPos(ErrNum_RepassUnknown, pComp);
